@@ -67,6 +67,49 @@ def h_parser(I, job):
     I.reach('end')
 
 
+POPB = '@_ZN6osmium2io6detail13queue_wrapperINS_6memory6BufferEE3popEv'
+
+
+def setup_reader(I):
+    if POPB not in I.m.funcs: raise Exception('queue_wrapper<Buffer>::pop not found in the IR (inlined?)')
+    I.overrides[POPB] = lambda I_, ret, this: I_.call('@verif_model_pop_buffer_throwing', [ret, this])
+    I.models['_ZNSt6thread4joinEv'] = lambda I_, t: I_.call('@verif_model_thread_join', [t])
+
+
+def h_reader_states(I, job):
+    """Reader::read / close / header as a state machine over a scripted output queue whose pop() throws at a symbolic call number"""
+    nops = job['ops']; nbuf = job['nbuf']
+    thr = small(I, 'throw_at', nbuf + 1)              # nbuf + 1: never (the end-of-data marker is pop number nbuf)
+    om = I.new_obj(nops, 'ops', 'heap'); ops = []
+    for k in range(nops):
+        o = small(I, 'op%d' % k, 2); I.store(om + k, i8, o); ops.append(o)
+    log = I.new_obj(4 * nops, 'log', 'heap'); tail = I.new_obj(28, 'tail', 'heap')
+    I.call('@verif_reader_states', [nbuf, thr, om, nops, log, tail])
+    got = [I.concretize(I.load(log + 4 * k, i32), 'log') for k in range(nops)]
+    got = [g - (1 << 32) if g >= (1 << 31) else g for g in got]
+    pops, done, shut, status, joins, bad_joins, joinable = [I.concretize(I.load(tail + 4 * k, i32), 'tail') for k in range(7)]
+    # reference state machine (status: 0 okay, 1 error, 2 closed, 3 eof)
+    st = 0; si = 0; want = []; closed_once = False
+    for k, o in enumerate(ops):
+        if o == 0:
+            if st != 0: want.append(-2)
+            elif si == thr: want.append(-3); si += 1; st = 1; closed_once = True        # the upstream failure reaches the caller of read(); the reader shuts itself down
+            elif si < nbuf: si += 1; want.append(si)
+            else: si += 1; want.append(-1); st = 3
+        elif o == 1: want.append(10); st = 2; closed_once = True
+        else: want.append(-2 if st == 1 else 20)
+    for k in range(nops):
+        if got[k] != want[k]:
+            names = {0: 'read()', 1: 'close()', 2: 'header()'}
+            raise Finding('reader-state', 'operation %d (%s) after %s: outcome %d, the documented state machine gives %d (ids > 0: data, -1 end of data, -2 io_error, -3 the upstream exception, 10/20 normal return)' % (k, names[ops[k]], [names[x] for x in ops[:k]], got[k], want[k]))
+    if pops != si: raise Finding('reads-after-stop', 'the output queue was popped %d times, the state machine allows %d (nothing is read once an error was reported, the end was seen or the reader was closed)' % (pops, si))
+    if status != st: raise Finding('reader-state', 'final status %d, expected %d' % (status, st))
+    if closed_once and not (done and shut): raise Finding('no-shutdown', 'after close() or a reported error the read thread was not told to stop (m_done=%d) or the output queue was not shut down (%d)' % (done, shut))
+    if bad_joins: raise Finding('join-before-shutdown', 'close() joins the read thread before the stop flag is set and the output queue is shut down: a producer blocked on a full queue never ends (deadlock)')
+    if (closed_once or st == 3) and joinable: raise Finding('thread-not-joined', 'the read thread is still joinable after close() / an error / the end of the data')
+    I.reach('end')
+
+
 def harnesses(tier):
     N = 3 if tier == 'quick' else 4
     return [
@@ -76,4 +119,7 @@ def harnesses(tier):
         Harness('parse_stage', 'relay', h_parser, setup=setup, native_ok=False,
                 desc='Parser::parse() around a mock run(): header promise fulfilled exactly once (value, or the exception when run() fails before setting it), buffers in order, then at most one exception, then exactly one end-of-data marker',
                 bounds='<= 2 buffers'),
+        Harness('reader_states', 'reader', h_reader_states, setup=setup_reader, native_ok=False, jobs=[dict(ops=k, nbuf=b) for k in ((3, 4) if tier == 'quick' else (3, 4, 5)) for b in (1, 2)],
+                desc='Reader::read() / close() / header() as a state machine on a partially constructed Reader (real output queue, queue_wrapper::pop replaced by a script that delivers buffers, the end-of-data marker, or throws at a symbolic call number): the upstream exception leaves read(); afterwards and after close() / end of data every read() throws io_error and pops nothing; header() throws only in error state; close() and the error path set the stop flag of the read thread and shut the output queue down, and they do so before joining the read thread (std::thread::join modelled: a necessary condition for the join to return when the pipeline is backed up); the thread is joined by close(), by the error path and at the end of the data',
+                bounds='every sequence of <= %d operations over {read, close, header}, 1-2 data buffers, every throw position; threads are not started (joins of running threads are outside the claim)' % (4 if tier == 'quick' else 5)),
     ]
